@@ -4,15 +4,17 @@
 # A seeded change is "caught" when the check exits 1 with a VIOLATION line.
 set -u
 VERIF="$(cd "$(dirname "$0")/.." && pwd)"
+# VALIDATION_REPO: a scratch git worktree of /repo to work in instead of /repo itself (so that several shards can run side by side)
+REPO="${VALIDATION_REPO:-/repo}"; [ "$REPO" != /repo ] && export HRSIM_REPO="$REPO"
 TIER=quick
 if [ "${1:-}" = "--tier" ]; then TIER="$2"; shift 2; fi
 ids=("$@")
 [ ${#ids[@]} -eq 0 ] && ids=($(ls "$VERIF/seeded"))
-if [ -n "$(git -C /repo status --porcelain)" ]; then echo "run_seeded: /repo is not clean" >&2; exit 2; fi
+if [ -n "$(git -C "$REPO" status --porcelain)" ]; then echo "run_seeded: $REPO is not clean" >&2; exit 2; fi
 for id in "${ids[@]}"; do
   d="$VERIF/seeded/$id"
   [ -f "$d/patch.diff" ] || continue
-  if ! git -C /repo apply "$d/patch.diff" 2>/dev/null; then echo "$id: patch does not apply"; continue; fi
+  if ! git -C "$REPO" apply "$d/patch.diff" 2>/dev/null; then echo "$id: patch does not apply"; continue; fi
   for chk in $(jq -r '.checks[]' "$d/meta.json"); do
     out=$("$VERIF/check" "$chk" --tier "$TIER" 2>&1); rc=$?
     sig=$(echo "$out" | grep -m1 -E '^hrsim: C[0-9]+ [a-z]' | cut -c8-160)
@@ -23,6 +25,6 @@ for id in "${ids[@]}"; do
     esac
     echo "$id $chk $verdict :: $sig"
   done
-  git -C /repo apply -R "$d/patch.diff"
-  git -C /repo status --porcelain | grep -q . && { echo "run_seeded: could not undo $id" >&2; exit 2; }
+  git -C "$REPO" apply -R "$d/patch.diff"
+  git -C "$REPO" status --porcelain | grep -q . && { echo "run_seeded: could not undo $id" >&2; exit 2; }
 done
